@@ -38,6 +38,9 @@ var sgFuel = map[string][]string{
 	"kmpTable":     {"(2 * length v_find + 2)%nat"},
 	"kmpSearch":    {"((length v_corpus + 2) * (length v_find + 2))%nat"},
 	"kmpSearchAll": {"(length v_corpus + 2)%nat"},
+	// kmpDeduplicate: the scan over the ring (the model's fuel + 1: the model reports a negative restart index one
+	// iteration before the Go code indexes with it), the reverse scan, the corpus expansion
+	"kmpDeduplicate": {"(S (kmpFuel v_ring))", "(length v_visitedPoints)", "(length v_ring + 2)%nat"},
 }
 
 const (
@@ -50,10 +53,15 @@ const (
 	stPtPtr  = "ptptr"  // *[2]float64: nil or a point
 	stNil    = "nil"    // the untyped nil
 	stOpaque = "opaque" // a parameter that is only handed on to a panic helper
+	stIPair  = "ipair"  // [2]int
+	stSeqmap = "seqmap" // *sortedmap.SortedMap[string, [2]int]: the micro-model of Snap/Model.v
+	stEntry  = "entry"  // a key of that map, read together with its value
+	stView   = "view"   // the result of X.Map(), only usable as mmap[key]
 )
 
 var sgCoq = map[string]string{stInt: "Z", stBool: "bool", stPt: "pt", stPts: "(list pt)", stInts: "(list Z)",
-	stRings: "(list (list pt))", stPtPtr: "(option pt)"}
+	stRings: "(list (list pt))", stPtPtr: "(option pt)", stIPair: "(Z * Z)%type", stSeqmap: "seqmap",
+	stEntry: "(list pt * (Z * Z))%type"}
 
 // helpers of snap.go whose whole body is a panic: the error value of the model
 var sgPanics = map[string]string{"panicNoPointsFoundForVertices": "NoPointsFound"}
@@ -81,6 +89,8 @@ type sgEnv struct {
 	vars  map[string]string
 	made  map[string]bool   // locals created by make and not aliased since
 	deref map[string]string // pointer variables known to be non-nil here -> the name of the value they point to
+	mapOf map[string]string // mmap := X.Map()  ->  X
+	keyOf map[string]string // for _, key := range X.Keys()  ->  X
 }
 
 func (e *sgEnv) clone() *sgEnv {
@@ -90,6 +100,13 @@ func (e *sgEnv) clone() *sgEnv {
 	}
 	for k, v := range e.deref {
 		c.deref[k] = v
+	}
+	c.mapOf, c.keyOf = map[string]string{}, map[string]string{}
+	for k, v := range e.mapOf {
+		c.mapOf[k] = v
+	}
+	for k, v := range e.keyOf {
+		c.keyOf[k] = v
 	}
 	for k, v := range e.made {
 		c.made[k] = v
@@ -105,16 +122,18 @@ func (e *sgEnv) declare(n, ty string) {
 }
 
 type sgSig struct {
-	name    string
-	params  []lfield
-	result  string // "" = no result
-	mutated int    // index of the slice parameter written through, -1 if none
-	retTy   string
+	name       string
+	params     []lfield
+	result     string // "" = no result
+	mutated    int    // index of the slice parameter written through, -1 if none
+	retTy      string
+	resultName string
 }
 
 type sgCtx struct {
 	ret      func(string) string    // the monadic value of `return v`
 	brk      func() (string, error) // the monadic value of `break`, nil outside loops
+	cont     func() (string, error) // the monadic value of `continue`
 	inSwitch bool
 }
 
@@ -126,6 +145,10 @@ type sg struct {
 	imports       map[string]bool // package names imported by snap.go that externals may refer to
 	useExternals  bool
 	panicsChecked map[string]bool
+	xAxIsZero     bool
+	generic       map[string]string // type parameters of the function being translated -> the type they stand for
+	pkgs          map[string]string // import name -> path (slices, fmt, sortedmap, mapslicehelp)
+	dedup         bool              // the constructs of kmpDeduplicate / RemoveSequences are enabled
 	cur           *sgSig
 	n             int
 	loopN         int
@@ -154,6 +177,17 @@ func (g *sg) goType(x ast.Expr) (string, error) {
 		return stRings, nil
 	case "*[2]float64":
 		return stPtPtr, nil
+	case "[2]int":
+		return stIPair, nil
+	case "*sortedmap.SortedMap[K, [2]int]", "*sortedmap.SortedMap[string, [2]int]":
+		if g.dedup && g.pkgs["sortedmap"] == "github.com/tobshub/go-sortedmap" {
+			return stSeqmap, nil
+		}
+	}
+	if ar, ok := x.(*ast.ArrayType); ok && ar.Len == nil {
+		if id, ok := ar.Elt.(*ast.Ident); ok && g.generic[id.Name] == stPt {
+			return stPts, nil
+		}
 	}
 	return "", fmt.Errorf("unsupported type %s", types.ExprString(x))
 }
@@ -207,6 +241,9 @@ func (g *sg) expr(env *sgEnv, x ast.Expr, binds *[]string) (sgVal, error) {
 		if t, ok := env.vars[x.Name]; ok {
 			if t == stOpaque {
 				return sgVal{}, fmt.Errorf("the parameter %s may only be passed to a panic helper", x.Name)
+			}
+			if t == stView {
+				return sgVal{}, fmt.Errorf("%s (the result of Map()) may only be indexed", x.Name)
 			}
 			return sgVal{code: "v_" + x.Name, ty: t}, nil
 		}
@@ -298,9 +335,31 @@ func (g *sg) expr(env *sgEnv, x ast.Expr, binds *[]string) (sgVal, error) {
 		}
 		return sgVal{}, fmt.Errorf("unsupported operator %s on %s", x.Op, a.ty)
 	case *ast.IndexExpr:
+		if id, ok := x.X.(*ast.Ident); ok && env.vars[id.Name] == stView {
+			// mmap[key] with mmap := X.Map() and key ranging over X.Keys(): the value stored under that key
+			k, ok := x.Index.(*ast.Ident)
+			if !ok || env.vars[k.Name] != stEntry || env.keyOf[k.Name] != env.mapOf[id.Name] || env.mapOf[id.Name] == "" {
+				return sgVal{}, fmt.Errorf("%s[..] is only supported with a key ranging over the Keys() of the same sorted map", id.Name)
+			}
+			return sgVal{code: "(snd v_" + k.Name + ")", ty: stIPair}, nil
+		}
 		a, err := g.expr(env, x.X, binds)
 		if err != nil {
 			return sgVal{}, err
+		}
+		if a.ty == stIPair {
+			var ib []string
+			i, err := g.expr(env, x.Index, &ib)
+			if err != nil {
+				return sgVal{}, err
+			}
+			switch {
+			case i.lit && i.code == "0":
+				return sgVal{code: "(fst " + a.code + ")", ty: stInt}, nil
+			case i.lit && i.code == "1":
+				return sgVal{code: "(snd " + a.code + ")", ty: stInt}, nil
+			}
+			return sgVal{}, fmt.Errorf("index into [2]int that is not the literal 0 or 1")
 		}
 		el, ok := sgElem(a.ty)
 		if !ok {
@@ -350,6 +409,46 @@ func (g *sg) expr(env *sgEnv, x ast.Expr, binds *[]string) (sgVal, error) {
 		ty, err := g.goType(x.Type)
 		if err != nil {
 			return sgVal{}, err
+		}
+		if ty == stIPair {
+			if len(x.Elts) != 2 {
+				return sgVal{}, fmt.Errorf("[2]int literal with %d elements", len(x.Elts))
+			}
+			var items []string
+			for _, e := range x.Elts {
+				if _, keyed := e.(*ast.KeyValueExpr); keyed {
+					return sgVal{}, fmt.Errorf("keyed array literal")
+				}
+				v, err := g.expr(env, e, binds)
+				if err != nil {
+					return sgVal{}, err
+				}
+				if v.ty != stInt {
+					return sgVal{}, fmt.Errorf("[2]int literal with %s", v.ty)
+				}
+				items = append(items, v.code)
+			}
+			return sgVal{code: "(" + items[0] + ", " + items[1] + ")", ty: stIPair}, nil
+		}
+		if ty == stPts {
+			var items []string
+			for _, e := range x.Elts {
+				if _, keyed := e.(*ast.KeyValueExpr); keyed {
+					return sgVal{}, fmt.Errorf("keyed slice literal")
+				}
+				v, err := g.expr(env, e, binds)
+				if err != nil {
+					return sgVal{}, err
+				}
+				if v.ty != stPt {
+					return sgVal{}, fmt.Errorf("[][2]float64 literal with %s", v.ty)
+				}
+				items = append(items, v.code)
+			}
+			if len(items) == 0 {
+				return sgVal{code: "(@nil pt)", ty: stPts}, nil
+			}
+			return sgVal{code: "[" + strings.Join(items, "; ") + "]", ty: stPts}, nil
 		}
 		if ty == stRings {
 			var items []string
@@ -472,6 +571,11 @@ func sgStaticallyNonNeg(x ast.Expr) bool {
 }
 
 func (g *sg) call(env *sgEnv, x *ast.CallExpr, binds *[]string) (sgVal, error) {
+	if g.dedup {
+		if v, handled, err := g.dedupCall(env, x, binds); handled {
+			return v, err
+		}
+	}
 	if sel, ok := x.Fun.(*ast.SelectorExpr); ok {
 		if pkg, ok := sel.X.(*ast.Ident); ok {
 			key := pkg.Name + "." + sel.Sel.Name
@@ -531,7 +635,7 @@ func (g *sg) call(env *sgEnv, x *ast.CallExpr, binds *[]string) (sgVal, error) {
 		if err != nil {
 			return sgVal{}, err
 		}
-		if ty != stInts {
+		if ty != stInts && !(ty == stPts && g.dedup) {
 			return sgVal{}, fmt.Errorf("make of %s", ty)
 		}
 		if !sgStaticallyNonNeg(x.Args[1]) {
@@ -543,6 +647,9 @@ func (g *sg) call(env *sgEnv, x *ast.CallExpr, binds *[]string) (sgVal, error) {
 		}
 		if n.ty != stInt {
 			return sgVal{}, fmt.Errorf("make with a length of type %s", n.ty)
+		}
+		if ty == stPts { // the zero value of [2]float64 is the point (0, 0)
+			return sgVal{code: "(repeat ((0, 0) : pt) (Z.to_nat " + n.code + "))", ty: stPts}, nil
 		}
 		return sgVal{code: "(repeat 0 (Z.to_nat " + n.code + "))", ty: stInts}, nil
 	case "append":
@@ -605,10 +712,25 @@ func sgAssigned(stmts []ast.Stmt, acc map[string]bool) {
 				}
 			case *ast.IncDecStmt:
 				target(n.X)
-			case *ast.RangeStmt, *ast.FuncLit, *ast.GoStmt, *ast.DeferStmt:
+			case *ast.RangeStmt:
+				if n.Tok != token.DEFINE {
+					acc["?"] = true
+				}
+			case *ast.FuncLit, *ast.GoStmt, *ast.DeferStmt:
 				acc["?"] = true
 			case *ast.ExprStmt: // a call of a function that writes through a slice argument
 				if c, ok := n.X.(*ast.CallExpr); ok {
+					switch types.ExprString(c.Fun) {
+					case "copy", "slices.Reverse": // write through the first argument
+						if len(c.Args) > 0 {
+							target(c.Args[0])
+						}
+						return true
+					}
+					if sel, ok := c.Fun.(*ast.SelectorExpr); ok && sel.Sel.Name == "Insert" { // X.Insert(k, v) changes X
+						target(sel.X)
+						return true
+					}
 					for _, a := range c.Args {
 						if id, ok := a.(*ast.Ident); ok {
 							acc["call:"+id.Name] = true
@@ -630,7 +752,7 @@ func sgTerminates(stmts []ast.Stmt) bool {
 	case *ast.ReturnStmt:
 		return true
 	case *ast.BranchStmt:
-		return s.Tok == token.BREAK && s.Label == nil
+		return (s.Tok == token.BREAK || s.Tok == token.CONTINUE) && s.Label == nil
 	case *ast.ExprStmt:
 		return sgPanicCall(s) != ""
 	case *ast.IfStmt:
@@ -714,7 +836,47 @@ func (g *sg) stmts(env *sgEnv, list []ast.Stmt, k lcont, ctx *sgCtx) (string, er
 			return sgJoin(binds, ctx.ret(v.code)), nil
 		}
 		return "", fmt.Errorf("unsupported return")
+	case *ast.DeclStmt:
+		gd, ok := s.Decl.(*ast.GenDecl)
+		if !ok || gd.Tok != token.VAR {
+			return "", fmt.Errorf("unsupported declaration")
+		}
+		env2 := env.clone()
+		var lines []string
+		for _, sp := range gd.Specs {
+			vs := sp.(*ast.ValueSpec)
+			if vs.Type == nil || len(vs.Values) != 0 {
+				return "", fmt.Errorf("only `var x T` is supported")
+			}
+			t, err := g.goType(vs.Type)
+			if err != nil {
+				return "", err
+			}
+			if t != stInt {
+				return "", fmt.Errorf("var of type %s", t)
+			}
+			for _, n := range vs.Names {
+				if _, exists := env2.vars[n.Name]; exists || n.Name == "_" {
+					return "", fmt.Errorf("var %s redeclares a variable", n.Name)
+				}
+				env2.declare(n.Name, t)
+				lines = append(lines, fmt.Sprintf("let v_%s := 0 in", n.Name))
+			}
+		}
+		body, err := g.stmts(env2, rest, k, ctx)
+		if err != nil {
+			return "", err
+		}
+		return sgJoin(lines, body), nil
+	case *ast.RangeStmt:
+		return g.rangeLoop(env, s, after(env), ctx)
 	case *ast.BranchStmt:
+		if s.Tok == token.CONTINUE && s.Label == nil {
+			if ctx.cont == nil {
+				return "", fmt.Errorf("continue outside a loop")
+			}
+			return ctx.cont()
+		}
 		if s.Tok != token.BREAK || s.Label != nil {
 			return "", fmt.Errorf("unsupported %s", s.Tok)
 		}
@@ -776,6 +938,15 @@ func (g *sg) stmts(env *sgEnv, list []ast.Stmt, k lcont, ctx *sgCtx) (string, er
 		c2.inSwitch = true
 		return g.branch(env, conds, bodies, def, after(env), &c2)
 	case *ast.ForStmt:
+		if s.Init != nil { // for init; cond; post {}  =  init; for ; cond; post {}  (the loop variable stays declared)
+			as, ok := s.Init.(*ast.AssignStmt)
+			if !ok || as.Tok != token.DEFINE {
+				return "", fmt.Errorf("unsupported loop initialisation")
+			}
+			bare := *s
+			bare.Init = nil
+			return g.stmts(env, append([]ast.Stmt{as, &bare}, rest...), k, ctx)
+		}
 		return g.loop(env, s, after(env), ctx)
 	}
 	return "", fmt.Errorf("unsupported statement %T at %s", s, g.fset.Position(s.Pos()))
@@ -786,6 +957,18 @@ func (g *sg) callStmt(env *sgEnv, s *ast.ExprStmt, rest []ast.Stmt, k lcont, ctx
 	c, ok := s.X.(*ast.CallExpr)
 	if !ok {
 		return "", fmt.Errorf("unsupported expression statement")
+	}
+	if g.dedup {
+		if line, handled, err := g.dedupStmt(env, c); handled {
+			if err != nil {
+				return "", err
+			}
+			body, err := g.stmts(env, rest, k, ctx)
+			if err != nil {
+				return "", err
+			}
+			return line + "\n  " + body, nil
+		}
 	}
 	id, ok := c.Fun.(*ast.Ident)
 	if !ok {
@@ -865,22 +1048,56 @@ func (g *sg) assign(env *sgEnv, s *ast.AssignStmt, rest []ast.Stmt, k lcont, ctx
 				if len(c.Args) == 2 {
 					a0, _ = c.Args[0].(*ast.Ident)
 				}
-				if !ok1 || a0 == nil || a0.Name != t.Name || s.Tok != token.ASSIGN || env.vars[t.Name] != stInts || c.Ellipsis != token.NoPos {
-					return "", fmt.Errorf("append is only supported as v = append(v, x) on a []int variable")
+				if !ok1 || a0 == nil || a0.Name != t.Name || s.Tok != token.ASSIGN {
+					return "", fmt.Errorf("append is only supported as v = append(v, x) or v = append(v, s...)")
+				}
+				sty := env.vars[t.Name]
+				el, isSlice := sgElem(sty)
+				if !isSlice || (sty != stInts && !g.dedup) || sty == stRings {
+					return "", fmt.Errorf("append to %s", sty)
 				}
 				v, err := g.expr(env, c.Args[1], &lines)
 				if err != nil {
 					return "", err
 				}
-				if v.ty != stInt {
-					return "", fmt.Errorf("append of %s", v.ty)
+				if c.Ellipsis != token.NoPos {
+					// v = append(v, s...): slices are values here; when v shares its backing array with another slice the
+					// elements written are the ones read (kmpDeduplicate: corpus is a window on ring), see DESIGN 7
+					if v.ty != sty || !g.dedup {
+						return "", fmt.Errorf("append of %s... to %s", v.ty, sty)
+					}
+					lines = append(lines, fmt.Sprintf("let v_%s := (v_%s ++ %s) in", t.Name, t.Name, v.code))
+				} else {
+					if v.ty != el {
+						return "", fmt.Errorf("append of %s to %s", v.ty, sty)
+					}
+					lines = append(lines, fmt.Sprintf("let v_%s := (v_%s ++ [%s]) in", t.Name, t.Name, v.code))
 				}
-				lines = append(lines, fmt.Sprintf("let v_%s := (v_%s ++ [%s]) in", t.Name, t.Name, v.code))
+				env2.made[t.Name] = false
 				body, err := g.stmts(env2, rest, k, ctx)
 				if err != nil {
 					return "", err
 				}
 				return sgJoin(lines, body), nil
+			}
+		}
+	}
+	// mmap := X.Map()
+	if g.dedup && len(s.Rhs) == 1 && s.Tok == token.DEFINE {
+		if c, ok := s.Rhs[0].(*ast.CallExpr); ok && len(c.Args) == 0 {
+			if sel, ok := c.Fun.(*ast.SelectorExpr); ok && sel.Sel.Name == "Map" {
+				if x, ok := sel.X.(*ast.Ident); ok && env.vars[x.Name] == stSeqmap {
+					t, ok := s.Lhs[0].(*ast.Ident)
+					if !ok || t.Name == "_" {
+						return "", fmt.Errorf("unsupported target of Map()")
+					}
+					if _, exists := env.vars[t.Name]; exists {
+						return "", fmt.Errorf(":= of the existing variable %s is not supported", t.Name)
+					}
+					env2.vars[t.Name] = stView // no value: only mmap[key] is supported
+					env2.mapOf[t.Name] = x.Name
+					return g.stmts(env2, rest, k, ctx)
+				}
 			}
 		}
 	}
@@ -1038,8 +1255,24 @@ func (g *sg) branch(env *sgEnv, conds []ast.Expr, bodies [][]ast.Stmt, def []ast
 
 // loop: for cond { body } / for { body } -> a Fixpoint on fuel over the variables the body assigns.
 func (g *sg) loop(env *sgEnv, s *ast.ForStmt, after lcont, ctx *sgCtx) (string, error) {
-	if s.Init != nil || s.Post != nil {
-		return "", fmt.Errorf("only `for cond {}` and `for {}` are supported")
+	if s.Init != nil {
+		return "", fmt.Errorf("loop initialisation not split off")
+	}
+	post := ""
+	if s.Post != nil {
+		pd, ok := s.Post.(*ast.IncDecStmt)
+		var id *ast.Ident
+		if ok {
+			id, ok = pd.X.(*ast.Ident)
+		}
+		if !ok || env.vars[id.Name] != stInt {
+			return "", fmt.Errorf("unsupported loop post statement")
+		}
+		op := "+"
+		if pd.Tok == token.DEC {
+			op = "-"
+		}
+		post = fmt.Sprintf("let v_%s := (v_%s %s 1) in\n  ", id.Name, id.Name, op)
 	}
 	fuels := sgFuel[g.cur.name]
 	if g.loopN >= len(fuels) {
@@ -1047,14 +1280,21 @@ func (g *sg) loop(env *sgEnv, s *ast.ForStmt, after lcont, ctx *sgCtx) (string, 
 	}
 	fuel := fuels[g.loopN]
 	g.loopN++
-	name := fmt.Sprintf("gen_%s_loop%d", g.cur.name, g.loopN)
+	loopIdx := g.loopN
+	name := fmt.Sprintf("gen_%s_loop%d", g.cur.name, loopIdx)
 	asg := map[string]bool{}
 	sgAssigned(s.Body.List, asg)
+	if s.Post != nil {
+		sgAssigned([]ast.Stmt{s.Post}, asg)
+	}
 	if asg["?"] {
 		return "", fmt.Errorf("loop body with an unsupported assignment target")
 	}
 	var state, free []string
 	for _, v := range env.order {
+		if env.vars[v] == stView {
+			return "", fmt.Errorf("a Map() view across a loop is not supported")
+		}
 		if asg[v] || asg["call:"+v] && (env.vars[v] == stInts) {
 			state = append(state, v)
 		} else {
@@ -1082,10 +1322,11 @@ func (g *sg) loop(env *sgEnv, s *ast.ForStmt, after lcont, ctx *sgCtx) (string, 
 	retTy := sgCoq[g.cur.retTy]
 	recur := "(" + name + " " + strings.Join(append(append(append([]string{}, fa...), "fuel'"), sa...), " ") + ")"
 	inner := &sgCtx{
-		ret: func(v string) string { return "Ok (Ret " + v + ")" },
-		brk: func() (string, error) { return "Ok (Next " + tuple + ")", nil },
+		ret:  func(v string) string { return "Ok (Ret " + v + ")" },
+		brk:  func() (string, error) { return "Ok (Next " + tuple + ")", nil },
+		cont: func() (string, error) { return post + recur, nil },
 	}
-	kLoop := lcont{gen: func() (string, error) { return recur, nil }, cheap: true}
+	kLoop := lcont{gen: func() (string, error) { return post + recur, nil }, cheap: true}
 	bodyEnv := env.clone()
 	body, err := g.stmts(bodyEnv, s.Body.List, kLoop, inner)
 	if err != nil {
@@ -1105,7 +1346,7 @@ func (g *sg) loop(env *sgEnv, s *ast.ForStmt, after lcont, ctx *sgCtx) (string, 
 	}
 	pos := g.fset.Position(s.Pos())
 	g.pre = append(g.pre, fmt.Sprintf("(* %s:%d loop %d of %s; state = %s *)\nFixpoint %s %s (fuel : nat) %s {struct fuel} : res (ctl %s %s) :=\n  match fuel with\n  | O => Err OutOfFuel\n  | S fuel' =>\n  %s\n  end.\n\n",
-		filepath.Base(pos.Filename), pos.Line, g.loopN, g.cur.name, tuple, name, strings.Join(fp, " "), strings.Join(sp, " "), stateTy, retTy, step))
+		filepath.Base(pos.Filename), pos.Line, loopIdx, g.cur.name, tuple, name, strings.Join(fp, " "), strings.Join(sp, " "), stateTy, retTy, step))
 	rest, err := after.gen()
 	if err != nil {
 		return "", err
@@ -1118,7 +1359,7 @@ func (g *sg) loop(env *sgEnv, s *ast.ForStmt, after lcont, ctx *sgCtx) (string, 
 
 func (g *sg) signature(fd *ast.FuncDecl) (*sgSig, error) {
 	sig := &sgSig{name: fd.Name.Name, mutated: -1}
-	if fd.Recv != nil || fd.Type.TypeParams != nil {
+	if fd.Recv != nil || (fd.Type.TypeParams != nil && !(g.dedup && fd.Name.Name == "RemoveSequences")) {
 		return nil, fmt.Errorf("methods and generic functions are not supported")
 	}
 	for _, f := range fd.Type.Params.List {
@@ -1166,12 +1407,18 @@ func (g *sg) signature(fd *ast.FuncDecl) (*sgSig, error) {
 			return nil, fmt.Errorf("function without result and without a written slice parameter")
 		}
 		sig.retTy = sig.params[sig.mutated].ty
-	case len(fd.Type.Results.List) == 1 && len(fd.Type.Results.List[0].Names) == 0:
+	case len(fd.Type.Results.List) == 1 && len(fd.Type.Results.List[0].Names) <= 1:
 		t, err := g.goType(fd.Type.Results.List[0].Type)
 		if err != nil {
 			return nil, err
 		}
 		sig.result, sig.retTy = t, t
+		if len(fd.Type.Results.List[0].Names) == 1 { // a named result starts as the zero value
+			if t != stPts || !g.dedup {
+				return nil, fmt.Errorf("unsupported named result")
+			}
+			sig.resultName = fd.Type.Results.List[0].Names[0].Name
+		}
 	default:
 		return nil, fmt.Errorf("unsupported result list")
 	}
@@ -1189,7 +1436,7 @@ func (g *sg) function(name string) error {
 	}
 	g.sigs[name] = sig
 	g.cur, g.n, g.loopN, g.pre = sig, 0, 0, nil
-	env := &sgEnv{vars: map[string]string{}, made: map[string]bool{}, deref: map[string]string{}}
+	env := &sgEnv{vars: map[string]string{}, made: map[string]bool{}, deref: map[string]string{}, mapOf: map[string]string{}, keyOf: map[string]string{}}
 	var params []string
 	for _, p := range sig.params {
 		if _, dup := env.vars[p.name]; dup || p.name == "_" {
@@ -1239,10 +1486,19 @@ func (g *sg) function(name string) error {
 		return "", fmt.Errorf("control reaches the end of the function without a return")
 	}, cheap: true}
 	ctx := &sgCtx{ret: func(v string) string { return "Ok " + v }}
+	prefix := ""
+	if sig.resultName != "" {
+		if _, dup := env.vars[sig.resultName]; dup {
+			return fmt.Errorf("%s: the named result shadows a parameter", name)
+		}
+		env.declare(sig.resultName, sig.result)
+		prefix = "let v_" + sig.resultName + " := (@nil pt) in\n  "
+	}
 	body, err := g.stmts(env, fd.Body.List, fall, ctx)
 	if err != nil {
 		return fmt.Errorf("%s: %v", name, err)
 	}
+	body = prefix + body
 	if g.loopN != len(sgFuel[name]) {
 		return fmt.Errorf("%s: %d loops translated, fuel configured for %d", name, g.loopN, len(sgFuel[name]))
 	}
@@ -1258,7 +1514,7 @@ func (g *sg) function(name string) error {
 
 func sgLoad(repo string) (*sg, error) {
 	g := &sg{fset: token.NewFileSet(), funcs: map[string]*ast.FuncDecl{}, sigs: map[string]*sgSig{}, emitted: map[string]bool{},
-		imports: map[string]bool{}, panicsChecked: map[string]bool{}}
+		imports: map[string]bool{}, panicsChecked: map[string]bool{}, generic: map[string]string{}, pkgs: map[string]string{}}
 	f, err := parser.ParseFile(g.fset, filepath.Join(repo, "snap/snap.go"), nil, 0)
 	if err != nil {
 		return nil, err
@@ -1272,10 +1528,23 @@ func sgLoad(repo string) (*sg, error) {
 		if strings.HasSuffix(path, "/texel/mapslicehelp") {
 			g.imports[name] = true
 		}
+		g.pkgs[name] = path
 	}
 	for _, d := range f.Decls {
 		if fd, ok := d.(*ast.FuncDecl); ok && fd.Recv == nil {
 			g.funcs[fd.Name.Name] = fd
+		}
+		if gd, ok := d.(*ast.GenDecl); ok && gd.Tok == token.CONST {
+			for _, sp := range gd.Specs {
+				vs := sp.(*ast.ValueSpec)
+				for i, n := range vs.Names {
+					if n.Name == "xAx" && vs.Type == nil && i < len(vs.Values) {
+						if bl, ok := vs.Values[i].(*ast.BasicLit); ok && bl.Value == "0" {
+							g.xAxIsZero = true
+						}
+					}
+				}
+			}
 		}
 	}
 	for _, shadowed := range []string{"len", "max", "min", "make", "append", "nil", "panic"} { // the builtins must be the builtins
